@@ -15,6 +15,32 @@ import (
 // variable extraction, variables mapper) on generated operations: the document before and after
 // the variables mapper, the mapping, and the reference executor's answer to both forms.
 
+// stripInternal removes the "__internal_typename" members: normalisation puts that placeholder
+// into selection sets it emptied; the engine never renders it.
+func stripInternal(j *fedlab.J) *fedlab.J {
+	if j == nil {
+		return j
+	}
+	switch j.Kind {
+	case fedlab.JArr:
+		out := &fedlab.J{Kind: fedlab.JArr}
+		for _, x := range j.Items {
+			out.Items = append(out.Items, stripInternal(x))
+		}
+		return out
+	case fedlab.JObj:
+		out := &fedlab.J{Kind: fedlab.JObj}
+		for _, m := range j.Members {
+			if m.Key == "__internal_typename" {
+				continue
+			}
+			out.Members = append(out.Members, fedlab.Member{Key: m.Key, Val: stripInternal(m.Val)})
+		}
+		return out
+	}
+	return j
+}
+
 func jsonOrNone(r *fedlab.ExecResult, err error) string {
 	if err != nil || r == nil {
 		return "(fail)"
@@ -22,7 +48,7 @@ func jsonOrNone(r *fedlab.ExecResult, err error) string {
 	if r.Invalid != "" {
 		return common.L("invalid", common.QS(r.Invalid))
 	}
-	return common.L("data", r.Data.Sexp(), common.I(r.NErrors))
+	return common.L("data", stripInternal(r.Data).Sexp(), common.I(r.NErrors))
 }
 
 func observeRename(lab *fedlab.Lab, cfgName string, sp *c09lab.Spelled) string {
@@ -69,7 +95,7 @@ func observeRename(lab *fedlab.Lab, cfgName string, sp *c09lab.Spelled) string {
 	ma, e2 := lab.Exec.Exec(labSuperID(lab), "mono", after, sp.OpName, varsAfter)
 	mo, e3 := lab.Mono(sp.Text, sp.OpName, []byte(sp.Variables))
 	return common.L(append(head, before, after, common.L(append([]string{"mapping"}, mp...)...), varsBefore.Sexp(), varsAfter.Sexp(),
-		jsonOrNone(mb, e1), jsonOrNone(ma, e2), jsonOrNone(mo, e3))...)
+		jsonOrNone(mb, e1), jsonOrNone(ma, e2), jsonOrNone(mo, e3), common.L("varserr", common.QS(trunc(p.VarsErr, 160))))...)
 }
 
 func labSuperID(l *fedlab.Lab) string {
